@@ -390,7 +390,7 @@ zgsitrf(superlu_options_t *options, SuperMatrix *A, int relax, int panel_size,
 	    /* Determine the union of the row structure of the snode */
 	    if ( (*info = ilu_zsnode_dfs(jcol, kcol, asub, xa_begin, xa_end,
 					 marker, Glu)) != 0 )
-		return;
+		goto cleanup;
 
 	    nextu    = xusub[jcol];
 	    nextlu   = xlusup[jcol];
@@ -400,7 +400,7 @@ zgsitrf(superlu_options_t *options, SuperMatrix *A, int relax, int panel_size,
 	    nzlumax = Glu->nzlumax;
 	    while ( new_next > nzlumax ) {
 		if ((*info = zLUMemXpand(jcol, nextlu, LUSUP, &nzlumax, Glu)))
-		    return;
+		    goto cleanup;
 	    }
 
 	    for (icol = jcol; icol <= kcol; icol++) {
@@ -475,12 +475,12 @@ zgsitrf(superlu_options_t *options, SuperMatrix *A, int relax, int panel_size,
 		if ((*info = ilu_zcolumn_dfs(m, jj, perm_r, &nseg,
 					     &panel_lsub[k], segrep, &repfnz[k],
 					     marker, parent, xplore, Glu)))
-		    return;
+		    goto cleanup;
 
 		/* Numeric updates */
 		if ((*info = zcolumn_bmod(jj, (nseg - nseg1), &dense[k],
 					  tempv, &segrep[nseg1], &repfnz[k],
-					  jcol, Glu, stat)) != 0) return;
+					  jcol, Glu, stat)) != 0) goto cleanup;
 
 		/* Make a fill-in position if the column is entirely zero */
 		if (xlsub[jj + 1] == xlsub[jj]) {
@@ -494,7 +494,7 @@ zgsitrf(superlu_options_t *options, SuperMatrix *A, int relax, int panel_size,
 		    nextl = xlsub[jj] + 1;
 		    if (nextl >= nzlmax) {
 			int error = zLUMemXpand(jj, nextl, LSUB, &nzlmax, Glu);
-			if (error) { *info = error; return; }
+			if (error) { *info = error; goto cleanup; }
 			lsub = Glu->lsub;
 		    }
 		    xlsub[jj + 1]++;
@@ -503,7 +503,7 @@ zgsitrf(superlu_options_t *options, SuperMatrix *A, int relax, int panel_size,
 		    if (xlusup[jj] + 1 > Glu->nzlumax) {
 			int_t nzlumax = Glu->nzlumax;
 			int error = zLUMemXpand(jj, xlusup[jj], LUSUP, &nzlumax, Glu);
-			if (error) { *info = error; return; }
+			if (error) { *info = error; goto cleanup; }
 		    }
 		    xlusup[jj + 1]++;
 		    ((doublecomplex *) Glu->lusup)[xlusup[jj]] = zero;
@@ -537,7 +537,7 @@ zgsitrf(superlu_options_t *options, SuperMatrix *A, int relax, int panel_size,
 					       milu, amax[jj - jcol] * tol_U,
 					       quota, &drop_sum, &nnzUj, Glu,
 					       dwork2)) != 0)
-		    return;
+		    goto cleanup;
 
 		/* Reset the dropping threshold if required */
 		if (drop_rule & DROP_DYNAMIC) {
@@ -664,6 +664,14 @@ zgsitrf(superlu_options_t *options, SuperMatrix *A, int relax, int panel_size,
 
     ops[FACT] += ops[TRSV] + ops[GEMV];
     stat->expansions = --(Glu->num_expansions);
+
+ cleanup:
+    if ( *info > n ) { /* Out of memory: L and U are not formed. */
+	zLUWorkFree(iwork, zwork, Glu);
+	SUPERLU_FREE (xplore);
+	SUPERLU_FREE (marker_relax);
+	zLUMemFree(fact, Glu);
+    }
 
     if ( iperm_r_allocated ) SUPERLU_FREE (iperm_r);
     SUPERLU_FREE (iperm_c);
